@@ -653,7 +653,14 @@ func (w *World) ChangeParams(p types.Params) (res StepResult) {
 // the zero-height export, export the genesis, wipe the module's store and initialise it
 // again from that genesis. Bank state (adjusted by the preparation's refunds) is kept,
 // as the bank module's own export/import would carry it over.
-func (w *World) Restart() (res StepResult) {
+//
+// With rewrite the exported genesis is first put into a form that means the same but is not
+// what ExportGenesis writes - what a migration script or a host chain's hand-written genesis
+// may contain: the definition and binding lists in reverse order, and the (meaningless)
+// disabled time of every AVAILABLE binding set to the Unix epoch instead of Go's zero time.
+// ValidateGenesis accepts it; no statement gives the field a meaning while a binding is
+// available.
+func (w *World) Restart(rewrite bool) (res StepResult) {
 	w.cbLog = nil
 	cctx, write := w.curCtx().CacheContext()
 	cctx = cctx.WithEventManager(sdk.NewEventManager())
@@ -675,6 +682,19 @@ func (w *World) Restart() (res StepResult) {
 		it.Close()
 		for _, k := range keys {
 			store.Delete(k)
+		}
+		if rewrite {
+			for i, j := 0, len(gs.Definitions)-1; i < j; i, j = i+1, j-1 {
+				gs.Definitions[i], gs.Definitions[j] = gs.Definitions[j], gs.Definitions[i]
+			}
+			for i, j := 0, len(gs.Bindings)-1; i < j; i, j = i+1, j-1 {
+				gs.Bindings[i], gs.Bindings[j] = gs.Bindings[j], gs.Bindings[i]
+			}
+			for i := range gs.Bindings {
+				if gs.Bindings[i].Available {
+					gs.Bindings[i].DisabledTime = time.Unix(0, 0).UTC()
+				}
+			}
 		}
 		service.InitGenesis(cctx, w.a.k, *gs)
 		res.OK = true
